@@ -619,7 +619,7 @@ def check_C05(ctx):
 
 def check_C09(ctx):
     return run_message_property(ctx, dict(
-        theorems=["C09_no_reset", "C09_cursor", "C09_overwrite"],
+        theorems=["C09_no_reset", "C09_cursor", "C09_overwrite", "C09_tokens", "C09_reference", "C09_unmarshal_concat"],
         suites=lambda c: [("hist", ["hist", c.seed, _n(c, 1500, 40000)])],
         prop={"hist": lambda r: r["flags"].get("seq") == "ok" and r["flags"].get("ref") == "ok"},
         tie={"hist": tie_hist}, nontrivial=nontrivial_any,
